@@ -1,2 +1,103 @@
-(* C04 — placeholder *)
-From HC Require Import Base.
+(* C04 — forged or altered proofs never change what a replica believes (pinned statements; proofs in
+   Sound.v, CoreFacts.v when it lands). Cryptographic primitives are arbitrary functions (record cr):
+   nothing is assumed about them. Every statement is a reduction: "the verifier accepted => what it
+   accepted is the writer's, OR here are two different byte strings with the same BLAKE2b hash".
+   T is the writer's tree as a function from flat index to node; `consistent_path` says that T's parents
+   are the parent_node of their children along the path the verifier climbs (true of the reference tree).
+   Proved: block value soundness, soundness of every sibling hash on the path and of a hash section's
+   bottom node, binding of the signature to (root list, length, fork), the structure of what verify_proof
+   checked when it accepts. The size fields of the bottom nodes of hash/seek sections are bound only in sum
+   (lemma parent_hash_length_split in Sound.v exhibits it) — exactly the carve-out of the property text.
+   Partial: the composition into "replica invariant preserved by verify_and_apply_proof" (byte offsets,
+   storage) and Ed25519 unforgeability itself are not proved; the alteration enumeration of tools/c04.py
+   covers the composition on every run. *)
+From HC Require Import Base NMap Codec CodecFacts Crypto FlatTree Storage Bitfield Oplog Merkle Core Sound CoreFacts.
+
+Theorem C04_block_value_sound : forall cr (T : N -> node) b oh c root c' v0,
+  (forall i, length (n_hash (T i)) = 32%nat) ->
+  Forall (fun n => length (n_hash n) = 32%nat) (db_nodes b) ->
+  consistent_path cr T (length (db_nodes b)) (it_new (2 * db_index b)) ->
+  T (2 * db_index b) = block_node cr (2 * db_index b) v0 ->
+  verify_tree cr (Some b) oh None c = Ok (Some root, c') ->
+  n_hash root = n_hash (T (n_index root)) ->
+  db_value b = v0 \/ some_collision cr.
+Proof. exact block_value_sound. Qed.
+
+Theorem C04_climb_sound : forall cr (T : N -> node) fuel q it cur acc root visited,
+  (forall i, length (n_hash (T i)) = 32%nat) ->
+  Forall (fun n => length (n_hash n) = 32%nat) (q_list q) ->
+  n_index cur = it_index it ->
+  consistent_path cr T (length (q_list q)) it ->
+  climb cr fuel q it cur acc = Ok (root, visited) ->
+  n_hash root = n_hash (T (n_index root)) ->
+  n_hash cur = n_hash (T (it_index it)) \/ some_collision cr.
+Proof. exact climb_sound. Qed.
+
+Theorem C04_leaf_hash_binds : forall cr a b, leaf_hash cr a = leaf_hash cr b -> a = b \/ some_collision cr.
+Proof. exact leaf_hash_binds. Qed.
+
+Theorem C04_tree_hash_binds : forall cr rs rs',
+  Forall root_wf rs -> Forall root_wf rs' -> tree_hash cr rs = tree_hash cr rs' ->
+  map node_triple rs = map node_triple rs' \/ some_collision cr.
+Proof. exact tree_hash_binds. Qed.
+
+Theorem C04_signature_covers_roots_length_fork : forall cr c sg pk c',
+  cs_verify_and_set_signature cr c sg pk = Ok c' ->
+  cr_verify cr pk (signable (tree_hash cr (cs_roots c)) (cs_length c) (cs_fork c)) sg = true /\
+  cs_roots c' = cs_roots c /\ cs_length c' = cs_length c /\ cs_fork c' = cs_fork c /\
+  cs_signature c' = Some sg /\ cs_hash c' = Some (tree_hash cr (cs_roots c)) /\ length sg = 64%nat.
+Proof. exact upgrade_signature_binds. Qed.
+
+Theorem C04_signed_message_binds : forall cr rs l f rs' l' f',
+  Forall root_wf rs -> Forall root_wf rs' -> l < 2 ^ 64 -> f < 2 ^ 64 -> l' < 2 ^ 64 -> f' < 2 ^ 64 ->
+  signable (tree_hash cr rs) l f = signable (tree_hash cr rs') l' f' ->
+  l = l' /\ f = f' /\ (map node_triple rs = map node_triple rs' \/ some_collision cr).
+Proof. exact signed_message_binds. Qed.
+
+Theorem C04_accept_means_checked : forall cr t tf pf pk cs,
+  verify_proof cr t tf pf pk = Ok cs ->
+  exists root c1, verify_tree cr (p_block pf) (p_hash pf) (p_seek pf) (tree_changeset t) = Ok (root, c1) /\
+  match p_upgrade pf with
+  | Some u => exists consumed c3,
+      verify_upgrade cr (p_fork pf) u root pk c1 = Ok (consumed, cs) /\
+      cs_verify_and_set_signature cr (cs_set_fork c3 (p_fork pf)) (du_signature u) pk = Ok cs /\
+      cr_verify cr pk (signable (tree_hash cr (cs_roots cs)) (cs_length cs) (cs_fork cs)) (du_signature u) = true /\
+      cs_fork cs = p_fork pf /\ cs_signature cs = Some (du_signature u) /\
+      cs_hash cs = Some (tree_hash cr (cs_roots cs)) /\
+      (consumed = false -> forall r, root = Some r -> stored_check t tf r)
+  | None => cs = c1 /\ forall r, root = Some r -> stored_check t tf r
+  end.
+Proof. exact verify_proof_accept_inv. Qed.
+
+(* a refused proof is a no-op: same core, same disk, no storage operation, no event — whichever gate refuses *)
+Theorem C04_refused_by_fork_gate : forall cr f pf c w,
+  p_fork pf <> t_fork (c_tree c) -> core_apply_proof cr f pf c w = (c, w, Ok false).
+Proof. exact apply_fork_mismatch. Qed.
+
+Theorem C04_refused_by_verifier : forall cr f pf c w e,
+  p_fork pf = t_fork (c_tree c) ->
+  verify_proof cr (c_tree c) (d_tree (w_disk w)) pf (kp_public (c_keypair c)) = Err e ->
+  core_apply_proof cr f pf c w = (c, w, Err e).
+Proof. exact apply_verify_error. Qed.
+
+Theorem C04_refused_by_commit_gate : forall cr f pf c w cs,
+  verify_proof cr (c_tree c) (d_tree (w_disk w)) pf (kp_public (c_keypair c)) = Ok cs ->
+  commitable (c_tree c) cs = false ->
+  core_apply_proof cr f pf c w = (c, w, Ok false).
+Proof. exact apply_not_commitable. Qed.
+
+(* non-vacuity: the premises of the headline theorem hold together on a concrete tree, and an honest
+   proof is accepted *)
+Example C04_ex_premises : consistent_path toy toyT 2 (it_new 0) /\ (forall i, length (n_hash (toyT i)) = 32%nat).
+Proof. split; [exact toy_path | exact toy_hash32]. Qed.
+
+Print Assumptions C04_block_value_sound.
+Print Assumptions C04_climb_sound.
+Print Assumptions C04_leaf_hash_binds.
+Print Assumptions C04_tree_hash_binds.
+Print Assumptions C04_signature_covers_roots_length_fork.
+Print Assumptions C04_signed_message_binds.
+Print Assumptions C04_accept_means_checked.
+Print Assumptions C04_refused_by_fork_gate.
+Print Assumptions C04_refused_by_verifier.
+Print Assumptions C04_refused_by_commit_gate.
